@@ -224,6 +224,16 @@ impl MultiPathManagerConfig {
     }
 }
 
+/// Returns true if `path` is expired at `now`.
+fn is_expired_at(path: &ScionPath, now: SystemTime) -> bool {
+    let timestamp = now
+        .duration_since(SystemTime::UNIX_EPOCH)
+        .unwrap_or_default()
+        .as_secs() as u32;
+
+    path.is_expired(timestamp).unwrap_or(false)
+}
+
 /// Error returned when a [`MultiPathManagerConfig`] is invalid.
 #[derive(Debug, thiserror::Error)]
 #[error("invalid path manager configuration: {0}")]
@@ -293,20 +303,11 @@ impl<F: PathFetcher> MultiPathManager<F> {
             .flatten();
 
         match try_path {
-            Some(active) => {
-                // XXX(ake): Since the Paths are actively managed, they should never be expired
-                // here.
-                let timestamp = now
-                    .duration_since(SystemTime::UNIX_EPOCH)
-                    .unwrap_or_default()
-                    .as_secs() as u32;
-
-                let expired = active.is_expired(timestamp).unwrap_or(false);
-
-                debug_assert!(!expired, "Returned expired path from try_get_path");
-
-                Some(active)
-            }
+            // The worker replaces the active path at its next maintenance step, which can be
+            // later than the path's expiry (e.g. while a refetch is failing or still running).
+            // Until then there is no usable path.
+            Some(active) if is_expired_at(&active, now) => None,
+            Some(active) => Some(active),
             None => {
                 // Start managing paths for the src-dst pair
                 self.fast_ensure_managed_paths(src, dst);
@@ -343,16 +344,28 @@ impl<F: PathFetcher> MultiPathManager<F> {
             .peek_with(&(src, dst), |_, (handle, _)| {
                 handle.try_active_path().as_deref().map(|p| p.0.clone())
             })
-            .flatten();
+            .flatten()
+            .filter(|active| !is_expired_at(active, now));
 
-        let res = match try_path {
+        match try_path {
             Some(active) => Ok(active),
             None => {
                 // Ensure paths are being managed
                 let path_set = self.ensure_managed_paths(src, dst);
 
                 // Try to get active path, possibly waiting for initialization/update
-                let active = path_set.active_path().await.as_ref().map(|p| p.0.clone());
+                let mut active = path_set.active_path().await.as_ref().map(|p| p.0.clone());
+
+                // An expired active path is replaced by the worker at its next maintenance step;
+                // if an update is under way wait for it, otherwise there is no usable path.
+                if active.as_ref().is_some_and(|p| is_expired_at(p, now)) {
+                    path_set.await_ongoing_update().await;
+                    active = path_set
+                        .try_active_path()
+                        .as_ref()
+                        .map(|p| p.0.clone())
+                        .filter(|p| !is_expired_at(p, now));
+                }
 
                 // Check active path after waiting
                 match active {
@@ -372,21 +385,7 @@ impl<F: PathFetcher> MultiPathManager<F> {
                     }
                 }
             }
-        };
-
-        if let Ok(active) = &res {
-            let timestamp = now
-                .duration_since(SystemTime::UNIX_EPOCH)
-                .unwrap_or_default()
-                .as_secs() as u32;
-
-            // XXX(ake): Since the Paths are actively managed, they should never be expired
-            // here.
-            let expired = active.is_expired(timestamp).unwrap_or(false);
-            debug_assert!(!expired, "Returned expired path from get_path");
         }
-
-        res
     }
 
     /// Creates a weak reference to this [`MultiPathManager`].
